@@ -203,3 +203,25 @@ Definition run_m2g (drop use : bool) (m : rmol) : tok := topt tmgraph (mol_to_gr
 (** implicit_hydrogen + GraphToMol alone on a synthetic molecule graph *)
 Definition run_ih (g : mgraph) (pres : list Z) : tok :=
   L [tmgraph (implicit_hydrogen g pres); tmgraph (smi_graph g pres); topt twmol (graph_to_wmol (smi_graph g pres))].
+
+(** ** vocabulary of the theorems (proof/C01_StringProof.v, props/C01.v) *)
+Definition is_mapped (a : ratom) : bool := negb (N.eqb (ra_map a) 0).
+(** the mapped atoms as graph nodes, in atom order *)
+Definition mapped_nodes (m : rmol) : list (N * gnode) :=
+  flat_map (fun a => if is_mapped a then [(ra_map a, atom_node a)] else []) (rm_atoms m).
+(** atom index -> atom map, for the mapped atoms *)
+Definition mapped_ix (m : rmol) : list (nat * N) :=
+  flat_map (fun ia : nat * ratom => if is_mapped (snd ia) then [(fst ia, ra_map (snd ia))] else []) (enumerate (rm_atoms m)).
+(** the bonds whose two atoms are mapped, as graph edges between the atom maps, in bond order *)
+Definition mapped_bonds (m : rmol) : list (N * N * Z) :=
+  flat_map (fun b : nat * nat * Z =>
+              match lookup_idx (fst (fst b)) (mapped_ix m), lookup_idx (snd (fst b)) (mapped_ix m) with
+              | Some u, Some v => [(u, v, snd b)]
+              | _, _ => []
+              end) (rm_bonds m).
+
+(** number of preserved hydrogens bonded to n *)
+Definition count_pres (g : mgraph) (pres : list Z) (n : N) : Z :=
+  Z.of_nat (length (filter (fun h => mem n (nbrs g h)) (preserved g pres))).
+Definition is_H (a : gnode) : bool := N.eqb (g_el a) EL_H.
+Definition watom_of (a : gnode) : watom := WA (g_el a) (g_ch a) (g_amap a) (g_hc a).
